@@ -58,6 +58,13 @@ _N_NUM = re.compile(r"0x[0-9a-fA-F]+|\b\d+\b")
 
 def _norm(msg):
     msg = str(msg).split("\n")[0][:200]
+    # a quoted value that itself holds quote or control characters (generated data echoed by the
+    # message) cannot be cut out pairwise: everything from the first quote on is the value
+    if any(ord(ch) < 32 or ord(ch) == 127 for ch in msg) or \
+            (msg.count("'") % 2 == 1 and '"' not in msg) or (msg.count('"') % 2 == 1 and "'" not in msg):
+        m = re.search(r"['\"]", msg)
+        if m:
+            msg = msg[:m.start()] + "'x'"
     for rx, rep in ((_N_ENUMREPR, "E"), (_N_ENUMNAME, "E"), (_N_BRLIST, "[..]"),
                     (_N_HEXRUN, "H"), (_N_QUOTED, "Q"), (_N_NUM, "N")):
         msg = rx.sub(rep, msg)
